@@ -278,13 +278,18 @@ func (p LinearPacer) Pace(elapsed time.Duration, hits uint64) (time.Duration, bo
 		return 0, true
 	}
 
+	rate := p.Rate(elapsed)
+	if rate <= 0 {
+		// A negative slope has brought the rate down to zero: no more hits are due.
+		return 0, true
+	}
+
 	expectedHits := p.hits(elapsed)
 	if hits == 0 || hits < uint64(expectedHits) {
 		// Running behind, send next hit immediately.
 		return 0, false
 	}
 
-	rate := p.Rate(elapsed)
 	interval := math.Round(1e9 / rate)
 
 	if n := uint64(interval); n != 0 && math.MaxInt64/n < hits {
